@@ -53,8 +53,10 @@
   `$ij` (the injected data, the same in every template of the render) is inside: `render_refines_lexical_partial`
   takes the specification's injected bindings to be the interpreter's (`hij`).
 
-  Still outside (exactly): what is outside Props/C01's expression fragment — index / isFirst / isLast,
-  round / floor / ceiling, randomInt, a map literal repeating a key (except as {call} data).
+  Still outside (exactly): index / isFirst / isLast (Props/C01 has them under `LoopRel` — `eval_refines_spec_loops`;
+  supplying `LoopRel` here needs "every list a {foreach} of the execution ranges over is shorter than 2^63" threaded
+  through this induction: not done), round / floor / ceiling, randomInt.  (A map literal whose tree repeats a key
+  is outside too, but no parser produces one: `C01.mapFragO_of_sorted`.)
 
   `loop_hides_only_its_variable`: a loop over `$x` changes the lookup of no variable name other than `x` (the
   bookkeeping names `x.index` / `x.lastIndex` contain a '.').  Those are covered by the
@@ -68,11 +70,11 @@ open SoyVerif SoyVerif.Model SoyVerif.Model.Eval SoyVerif.Refine
 open SoyVerif.Spec.Eval (Val Out)
 open SoyVerif.Props.C01 (EnvRel)
 
-/-- the expression fragment of Props/C01.lean at full width: `C01.fragO true`, the ordering comparisons
+/-- the expression fragment of Props/C01.lean at full width: `C01.fragO true false`, the ordering comparisons
     `< > <= >=` included (`C01.eval_refines_spec_ordering`; `C01.ordExact` is a theorem).  The refinement
     below uses nothing about expressions but that theorem: whatever Props/C01 proves for its fragment is
     inherited here. -/
-abbrev frag (e : Expr) : Bool := C01.fragO true e
+abbrev frag (e : Expr) : Bool := C01.fragO true false e
 
 open SoyVerif.Props.C02 (ScopeOk)
 
